@@ -24,6 +24,7 @@ LIST_OPS = ('lset', 'ldel', 'lappend', 'linsert', 'lextend', 'liadd', 'lpop', 'l
             'lsort', 'lreverse', 'limul', 'lslice', 'ldelslice')
 DICT_OPS = ('dset', 'ddel', 'dpop', 'dpopitem', 'dclear', 'dsetdefault', 'dupdate', 'dior')
 OBJ_OPS = ('oset',)
+TL_OPS = ('tlset', 'tlappend', 'tlins', 'tldel', 'tlpop')     # lists typed `List(Object(C0))`
 
 
 class Opq:
@@ -63,7 +64,7 @@ def env():
     class C1(pg.Object):
       allow_symbolic_assignment = True
 
-    _ENV.update(pg=pg, classes=[C0, C1])
+    _ENV.update(pg=pg, classes=[C0, C1], tl_spec=pg.typing.List(pg.typing.Object(C0)))
   return _ENV
 
 
@@ -87,6 +88,7 @@ class Runner:
     e = env()
     self.pg = e['pg']
     self.classes = e['classes']
+    self.tl_spec = e['tl_spec']
     self.roots = []
     self.serial = {}      # id(obj) -> serial number
     self.keep = []        # keeps every object ever seen alive (id() stays unique)
@@ -99,7 +101,7 @@ class Runner:
   def kind(self, n):
     pg = self.pg
     if isinstance(n, pg.List):
-      return 'l'
+      return 'l' if n.value_spec is None else 'tl'
     if isinstance(n, pg.Dict):
       return 'd'
     for i, c in enumerate(self.classes):
@@ -141,6 +143,8 @@ class Runner:
       c = [x for x in nodes if self.kind(x) == 'd']
     elif fam == 'l':
       c = [x for x in nodes if self.kind(x) == 'l']
+    elif fam == 'tl':
+      c = [x for x in nodes if self.kind(x) == 'tl']
     elif fam == 'o':
       c = [x for x in nodes if self.kind(x) in (['o', 0], ['o', 1])]
     else:
@@ -162,7 +166,7 @@ class Runner:
     if tag == 'e':
       if its:
         return its[abs(n) % ln][0]
-      return 0 if (cont is not None and self.kind(cont) == 'l') else key_text(0)
+      return 0 if (cont is not None and self.kind(cont) in ('l', 'tl')) else key_text(0)
     return key_text(0)
 
   def resolve_idx(self, cont, j):
@@ -197,6 +201,17 @@ class Runner:
       return ('opq',)
     if tag == 'T':
       return ('tup', abs(j[1]) % 4)
+    if tag == 'tl':
+      # a typed list is constructed from fresh instances of C0
+      items = []
+      for i, x in enumerate(j[1]):
+        e = self.resolve_ve(cx, used, x)
+        if e[0] == 'node' and e[1] == ['o', 0]:
+          e = ('node', ['o', 0], e[2], [(k, self.plain_only(y)) for k, y in e[3]])
+        else:
+          e = ('node', ['o', 0], list(DEFAULT_FLAGS), [])
+        items.append((i, e))
+      return ('tlist', items)
     if tag == 'I':
       return ('inferred',)
     if tag == 'R':
@@ -268,10 +283,29 @@ class Runner:
       return False
     return self.believed_root(o, cx['fuel']) is self.believed_root(cx['target'], cx['fuel'])
 
+  def plain_only(self, ve):
+    """values without offered nodes (inside the construction of a typed list)."""
+    if ve[0] == 'atom':
+      return ve
+    if ve[0] == 'node' and ve[1] in ('d', 'l'):
+      return ('node', ve[1], list(DEFAULT_FLAGS), [(k, self.plain_only(x)) for k, x in ve[3]])
+    return ('atom', None)
+
+  def for_typed(self, ve):
+    """what is offered to a typed list: an instance of C0 (new, with plain field values, or
+    existing) — anything else becomes the rejected value 1."""
+    if ve[0] == 'node' and ve[1] == ['o', 0]:
+      return ('node', ['o', 0], ve[2], [(k, self.plain_only(x)) for k, x in ve[3]])
+    if ve[0] == 'ref' and self.kind(ve[1]) == ['o', 0]:
+      return ve
+    return ('atom', 1)
+
   def sanitize(self, ve):
     """what survives pg.from_json(pg.to_json(v)): plain values, containers with default flags."""
     if ve[0] == 'atom' and isinstance(ve[1], (int, str)) and not isinstance(ve[1], bool):
       return ve
+    if ve[0] == 'tlist':
+      return ('node', 'l', list(DEFAULT_FLAGS), [(k, self.sanitize(x)) for k, x in ve[1]])
     if ve[0] == 'node':
       _, kind, _, items = ve
       if isinstance(kind, list) and kind[1] >= 2:
@@ -292,6 +326,8 @@ class Runner:
       return tuple(Opq() for _ in range(ve[1]))
     if ve[0] == 'inferred':
       return pg.symbolic.ValueFromParentChain()
+    if ve[0] == 'tlist':
+      return pg.List([self.build(x) for _, x in ve[1]], value_spec=self.tl_spec)
     if ve[0] == 'mkref':
       return pg.Ref(ve[1] if ve[1] is not None else [1, 2])
     if ve[0] == 'ref':
@@ -323,7 +359,7 @@ class Runner:
       nxt = None
       if cur is not None:
         kk = k
-        if self.kind(cur) == 'l' and isinstance(k, int) and k < 0:
+        if self.kind(cur) in ('l', 'tl') and isinstance(k, int) and k < 0:
           kk = k + len(cur)
         for ck, cv in self.children(cur):
           if ck == kk and type(ck) is type(kk):
@@ -340,7 +376,8 @@ class Runner:
     nodes = self.all_nodes()
     self.pre_nodes = nodes
     self.result_new = None
-    fam = 'd' if name in DICT_OPS else 'l' if name in LIST_OPS else 'o' if name in OBJ_OPS else '*'
+    fam = ('d' if name in DICT_OPS else 'l' if name in LIST_OPS else 'o' if name in OBJ_OPS
+           else 'tl' if name in TL_OPS else '*')
     target = None if name in ('new', 'newjson') else self.pick(nodes, fam, abs(j.get('t', 0)))
     self.last_target = target
     cx = {'nodes': nodes, 'target': target, 'unsafe': bool(j.get('unsafe')), 'fuel': len(nodes)}
@@ -383,7 +420,7 @@ class Runner:
     del used
 
     # `pop` evaluates the value it returns; an un-inferable inferred value raises there: skipped
-    if name == 'lpop':
+    if name in ('lpop', 'tlpop'):
       idx_pop = self.resolve_idx(t, j['key'])
       kk = idx_pop + ln if idx_pop < 0 else idx_pop
       if self.holds_inferred(t, kk):
@@ -398,6 +435,14 @@ class Runner:
         self.result_new = t.clone(deep=bool(j.get('deep', False)))
       elif name in ('dset', 'lset'):
         t[self.resolve_key(t, j['key'])] = self.build(v('v'))
+      elif name == 'tlset':
+        t[self.resolve_key(t, j['key'])] = self.build(self.for_typed(v('v')))
+      elif name == 'tlappend':
+        t.append(self.build(self.for_typed(v('v'))))
+      elif name == 'tlins':
+        t.insert(self.resolve_idx(t, j['key']), self.build(self.for_typed(v('v'))))
+      elif name == 'tldel':
+        del t[self.resolve_key(t, j['key'])]
       elif name == 'oset':
         cls = self.kind(t)[1]
         setattr(t, key_text(abs(j['key']) % (cls + 2)), self.build(v('v')))
@@ -411,7 +456,7 @@ class Runner:
         t.extend([self.build(x) for x in vs('vs')])
       elif name == 'liadd':
         operator.iadd(t, [self.build(x) for x in vs('vs')])
-      elif name == 'lpop':
+      elif name in ('lpop', 'tlpop'):
         t.pop(idx_pop)
       elif name == 'lremove':
         t.remove(j.get('a', 0))
@@ -458,7 +503,7 @@ class Runner:
         else:
           t.update(d)
       elif name == 'rebind':
-        is_list = self.kind(t) == 'l'
+        is_list = self.kind(t) in ('l', 'tl')
         u = set()
         pairs = []
         for pspec, ins, val in j.get('pairs', []):
@@ -474,7 +519,9 @@ class Runner:
                                                and parent.sym_hasattr(k)) else None
           if parent is None or not self.is_node(parent):
             parent = None
-          ins = ins and parent is not None and self.kind(parent) == 'l'
+          ins = ins and parent is not None and self.kind(parent) in ('l', 'tl')
+          if parent is not None and self.kind(parent) == 'tl':
+            ve = self.for_typed(ve)
           if ins:
             ve = drop_own(parent, ve)
           pairs.append((path, ins, ve, parent))
